@@ -100,6 +100,11 @@ EXPRESSION_PATTERN = re.compile(
 )
 
 
+# Reserved words are matched by the lexer with word boundaries wherever a token can start
+_RESERVED_PREFIX = re.compile(r"(?:true|false|null|vs)\b")
+_OPERAND_SPLIT = re.compile("[" + _UNICODE_OPS + "]")
+
+
 def _sort_children_by_key(children: list[Any]) -> list[Any]:
     """Sort AST children by key for key_sorting option.
 
@@ -141,6 +146,12 @@ def needs_quotes(value: Any) -> bool:
     # Reserved words need quotes to avoid becoming literals or operators
     # This includes boolean/null literals and operator keywords
     if value in ("true", "false", "null", "vs"):
+        return True
+
+    # A reserved word that starts the value, or starts an operand after an expression
+    # operator, is lexed as a literal/operator token of its own (true.x, vs-a, A∧null),
+    # so the bare text would not read back as this string.
+    if any(_RESERVED_PREFIX.match(segment) for segment in _OPERAND_SPLIT.split(value)):
         return True
 
     # Issue #181: Variables ($VAR, $1:name) don't need quotes
